@@ -8,6 +8,7 @@ pub mod c04;
 pub mod c06;
 pub mod c07;
 pub mod c16;
+pub mod c12;
 pub mod c11;
 pub mod c10;
 pub mod c08;
@@ -29,6 +30,7 @@ pub fn run(ctx: &mut Ctx) -> bool {
         "C06" => c06::run(ctx),
         "C07" => c07::run(ctx),
         "C16" => c16::run(ctx),
+        "C12" => c12::run(ctx),
         "C11" => c11::run(ctx),
         "C10" => c10::run(ctx),
         "C08" => c08::run(ctx),
@@ -47,6 +49,7 @@ pub fn replay(ctx: &mut Ctx, case: &str) -> bool {
         "C06" => c06::replay(ctx, case),
         "C07" => c07::replay(ctx, case),
         "C16" => c16::replay(ctx, case),
+        "C12" => c12::replay(ctx, case),
         "C11" => c11::replay(ctx, case),
         "C10" => c10::replay(ctx, case),
         "C08" => c08::replay(ctx, case),
